@@ -64,22 +64,14 @@ Proof.
   rewrite IH. reflexivity.
 Qed.
 
-Lemma sg_sorted_rev {A} (key : A -> string) l :
-  py_sorted_str key l = sort_by key str_ltb (rev l).
+(* the stable sort of the code IS the sort of the model: both insert from left to right, an element after
+   the earlier elements whose key is not greater *)
+Lemma sg_sorted_sort_by {A} (key : A -> string) l :
+  py_sorted_str key l = sort_by key str_ltb l.
 Proof.
   unfold py_sorted_str, sort_by. generalize (@nil A) as acc.
-  induction l as [|x xs IH]; intros acc; cbn [fold_left rev]; [reflexivity|].
-  rewrite fold_right_app. cbn [fold_right]. rewrite IH, sg_insert_eq. reflexivity.
-Qed.
-
-(* on pairwise distinct keys the stable sort of the code and the sort of the model agree *)
-Lemma sg_sorted_sort_by {A} (key : A -> string) l :
-  NoDup (map key l) -> py_sorted_str key l = sort_by key str_ltb l.
-Proof.
-  intros Hnd. rewrite sg_sorted_rev. apply sort_by_unique.
-  - apply sort_by_ssorted. exact Hnd.
-  - eapply perm_trans; [apply Permutation_sym, Permutation_rev|].
-    apply Permutation_sym. apply sort_by_perm.
+  induction l as [|x xs IH]; intros acc; cbn [fold_left]; [reflexivity|].
+  rewrite sg_insert_eq. apply IH.
 Qed.
 
 (* ------------------------------------------------------------------ loops *)
@@ -186,7 +178,7 @@ Lemma sg_sorted_map {A B} (key : A -> string) (key' : B -> string) (g : A -> B) 
   (forall x, key' (g x) = key x) ->
   py_sorted_str key' (map g l) = map g (py_sorted_str key l).
 Proof.
-  intros Hk. rewrite !sg_sorted_rev, <- map_rev. apply sort_by_map. exact Hk.
+  intros Hk. rewrite !sg_sorted_sort_by. apply sort_by_map. exact Hk.
 Qed.
 
 Lemma sg_children_loc f anc :
@@ -231,41 +223,6 @@ Proof.
   destruct (sort_by name str_ltb (children (Feature i rs))); reflexivity.
 Qed.
 
-Lemma sg_NF_head f : In (name f) (NF f).
-Proof. destruct f as [i rs]. rewrite NF_unfold. left. reflexivity. Qed.
-
-Lemma sg_nodup_children_names cs : NoDup (flat_map NF cs) -> NoDup (map name cs).
-Proof.
-  induction cs as [|c cs IH]; intros Hnd; cbn [map flat_map] in *; [constructor|].
-  constructor.
-  - intro Hin. apply in_map_iff in Hin. destruct Hin as [c' [En Hc']].
-    apply (NoDup_app_disjoint _ _ (name c) Hnd (sg_NF_head c)).
-    apply in_flat_map. exists c'. split; [exact Hc'|]. rewrite <- En. apply sg_NF_head.
-  - apply IH. eapply NoDup_app_r. exact Hnd.
-Qed.
-
-Lemma sg_nodup_child cs c : NoDup (flat_map NF cs) -> In c cs -> NoDup (NF c).
-Proof.
-  induction cs as [|c0 cs IH]; intros Hnd Hin; [contradiction|]. cbn [flat_map] in Hnd.
-  destruct Hin as [->|Hin].
-  - eapply NoDup_app_l. exact Hnd.
-  - apply IH; [|exact Hin]. eapply NoDup_app_r. exact Hnd.
-Qed.
-
-Lemma sg_flat_map_flat_map {A B C} (g : B -> list C) (h : A -> list B) l :
-  flat_map g (flat_map h l) = flat_map (fun x => flat_map g (h x)) l.
-Proof.
-  induction l as [|x xs IH]; cbn [flat_map]; [reflexivity|].
-  rewrite flat_map_app, IH. reflexivity.
-Qed.
-
-Lemma sg_nodup_children f : NoDup (names f) -> NoDup (flat_map NF (children f)).
-Proof.
-  destruct f as [i rs]. change (names (Feature i rs)) with (NF (Feature i rs)).
-  rewrite NF_unfold. intros Hnd. inversion Hnd as [|k ks _ Hnd']; subst.
-  unfold children. cbn [rels]. rewrite sg_flat_map_flat_map. exact Hnd'.
-Qed.
-
 Lemma sg_fsize_child f c : In c (children f) -> (fsize c < fsize f)%nat.
 Proof.
   destruct f as [i rs]. unfold children. cbn [rels]. intros Hin.
@@ -273,17 +230,16 @@ Proof.
   eapply fsize_child; eassumption.
 Qed.
 
-Lemma src_glencoe_tree_info : forall f anc fuel, (fsize f <= fuel)%nat -> NoDup (names f) ->
+Lemma src_glencoe_tree_info : forall f anc fuel, (fsize f <= fuel)%nat ->
   py__get_tree_info fuel (f, anc) = Ok (glencoe_tree f).
 Proof.
   intros f anc fuel. revert f anc.
-  induction fuel as [|fuel IH]; intros f anc Hf Hnd.
+  induction fuel as [|fuel IH]; intros f anc Hf.
   - destruct f as [i rs]. cbn [fsize] in Hf. lia.
   - cbn [py__get_tree_info]. rewrite sg_children_loc.
     rewrite (sg_sorted_map name (fun x : lfeat => name (fst x)) (fun c => (c, f :: anc)))
       by (intros x; reflexivity).
-    pose proof (sg_nodup_children f Hnd) as Hkids.
-    rewrite (sg_sorted_sort_by name (children f)) by (apply sg_nodup_children_names; exact Hkids).
+    rewrite (sg_sorted_sort_by name (children f)).
     rewrite (sg_flat_mapM_single _ (fun x : lfeat => glencoe_tree (fst x))).
     + cbn [bind]. rewrite map_map. cbn [fst]. rewrite sg_glencoe_tree_unfold.
       destruct (sort_by name str_ltb (children f)) as [|c cs]; reflexivity.
@@ -293,7 +249,6 @@ Proof.
       rewrite IH.
       * reflexivity.
       * pose proof (sg_fsize_child f c Hc'). lia.
-      * apply (sg_nodup_child (children f) c Hkids Hc').
 Qed.
 
 (* ------------------------------------------------------------------ _get_features_info *)
@@ -375,58 +330,47 @@ Lemma sg_fold_left_map {A B S} (f : S -> B -> S) (g : A -> B) l :
   forall s, fold_left f (map g l) s = fold_left (fun a x => f a (g x)) l s.
 Proof. induction l as [|x xs IH]; intros s; cbn [map fold_left]; [reflexivity|]. apply IH. Qed.
 
-Lemma sg_loc_features_names m :
-  Permutation (map (fun x : lfeat => name (fst x)) (loc_features m)) (names (root m)).
-Proof.
-  replace (map (fun x : lfeat => name (fst x)) (loc_features m))
-    with (map name (map fst (loc_features m))) by apply map_map.
-  rewrite loc_features_erase. unfold names.
-  apply Permutation_map. apply get_features_perm.
-Qed.
-
-Lemma src_glencoe_features_info : forall m, NoDup (names (root m)) ->
+Lemma src_glencoe_features_info : forall m,
   py__get_features_info (loc_features m) = Ok (glencoe_features m).
 Proof.
-  intros m Hnd. rewrite sg_features_info_any. unfold glencoe_features.
+  intros m. rewrite sg_features_info_any. unfold glencoe_features.
   rewrite <- loc_features_ctx.
   rewrite (sort_by_map (fun x : lfeat => name (fst x))
                        (fun pf : option feature * feature => name (snd pf))
                        (fun x : lfeat => (hd_error (snd x), fst x))) by (intros x; reflexivity).
   rewrite sg_fold_left_map. cbn [fst snd].
-  rewrite sg_sorted_sort_by; [reflexivity|].
-  eapply Permutation_NoDup; [apply Permutation_sym, sg_loc_features_names|exact Hnd].
+  rewrite sg_sorted_sort_by. reflexivity.
 Qed.
 
 (* ------------------------------------------------------------------ _to_json *)
-Theorem src_glencoe_to_json : forall m fuel, (fuel_model m <= fuel)%nat -> NoDup (names (root m)) ->
+(* no hypothesis on the names: the model's sort_by is the stable sort of the code (sg_sorted_sort_by), so the
+   two agree also on siblings of one name *)
+Theorem src_glencoe_to_json : forall m fuel, (fuel_model m <= fuel)%nat ->
   py__to_json fuel m = glencoe_write m.
 Proof.
-  intros m fuel Hf Hnd. unfold fuel_model, fuel_tree in Hf.
+  intros m fuel Hf. unfold fuel_model, fuel_tree in Hf.
   unfold py__to_json. rewrite src_get_features by (unfold fuel_tree; lia).
-  cbn [bind]. rewrite (src_glencoe_features_info m Hnd). cbn [bind].
-  unfold fm_root_l. rewrite (src_glencoe_tree_info (root m) [] fuel) by (lia || exact Hnd).
+  cbn [bind]. rewrite (src_glencoe_features_info m). cbn [bind].
+  unfold fm_root_l. rewrite (src_glencoe_tree_info (root m) [] fuel) by lia.
   cbn [bind]. unfold py_FeatureModel_get_constraints.
   rewrite (sg_constraints_info (ctcs m) fuel) by lia.
   rewrite glencoe_write_unfold.
   destruct (gl_ctc_go (ctcs m) []) as [d|e]; reflexivity.
 Qed.
 
-(* the hypothesis is needed: with two siblings of the same name the stable sort of the code and the
-   hand model's sort differ *)
-Example src_glencoe_needs_distinct_names : exists m, py__to_json (fuel_model m) m <> glencoe_write m.
-Proof.
-  exists {| root := Feature (mk_info "R")
+(* two siblings of one name (where an unstable sort of the model would differ from the code) *)
+Example src_glencoe_equal_names :
+  let m := {| root := Feature (mk_info "R")
                       [Relation 1 1 [Feature (mk_info "A")
                                        [Relation 1 2 [leaf "x"; leaf "y"]]];
                        Relation 1 1 [Feature (mk_info "A")
                                        [Relation 1 1 [leaf "z"; leaf "w"]]]];
-            ctcs := [] |}.
-  vm_compute. intro H. discriminate H.
-Qed.
+              ctcs := [] |} in
+  py__to_json (fuel_model m) m = glencoe_write m.
+Proof. vm_compute. reflexivity. Qed.
 
 Print Assumptions src_glencoe_ctc_info.
 Print Assumptions src_glencoe_constraints_info.
 Print Assumptions src_glencoe_tree_info.
 Print Assumptions src_glencoe_features_info.
-Print Assumptions src_glencoe_needs_distinct_names.
 Print Assumptions src_glencoe_to_json.
